@@ -437,13 +437,77 @@ def run_sort(sd):
     return res
 
 
+def run_filter(sd):
+    """filter_tensor on expressions built from few tensor names (the same name on several objects
+    of a term is the rule, not the exception); the request is a sub-multiset of what one term holds"""
+    rng = random.Random(sd)
+    from collections import Counter
+    from adcgen import Expr
+    from adcgen.simplify import filter_tensor
+    spin = rng.random() < 0.15
+    T = _targets(rng, "ov", 2, spin)
+    names_pool = rng.choice([["V", "Y"], ["V", "f", "t1"], ["Y", "c", "V"], ["t1", "t2", "V"]])
+    g = TermGen(rng, spaces="ov", spin=spin, n_tensors=(2, 4), max_contracted=4, deltas=(0, 1),
+                exponents=0.2, names=names_pool, exclude=())
+    terms = []
+    for _ in range(rng.randint(3, 6)):
+        try:
+            terms.append(g.term_with_target(T))
+        except RuntimeError:
+            pass
+    expr = Add(*terms)
+    if expr is S.Zero or not consistent_bks(expr) or expr.is_number:
+        return {"status": "skipped", "item": sd}
+    e = Expr(expr, target_idx=T)
+
+    def avail_of(t):
+        out = []
+        for f in IR.term_ir(t)[2]:
+            if f[0] == "t":
+                out += [f[1]] * f[6]
+            elif f[0] == "n":
+                out += [f[1]] * f[3]
+        return out
+    tl = list(e.sympy.args) if isinstance(e.sympy, Add) else [e.sympy]
+    pick = avail_of(rng.choice(tl))
+    if not pick:
+        return {"status": "skipped", "item": sd}
+    names = rng.sample(pick, rng.randint(1, len(pick)))
+    strict = rng.choice(["low", "medium", "medium", "high", "high"])
+    ign = rng.random() < 0.7
+    res = {"item": sd, "in": str(e), "api": f"filter_tensor({names}, strict={strict!r}, ignore_amplitudes={ign})",
+           "status": "equal", "det": []}
+    kept = filter_tensor(e.copy(), names, strict=strict, ignore_amplitudes=ign)
+    keep, drop = S.Zero, S.Zero
+    for t in tl:
+        avail = avail_of(t)
+        ca, cd = Counter(avail), Counter(names)
+        if strict == "low":
+            ok = all(n in avail for n in set(names))
+        elif strict == "medium":
+            ok = all(ca[n] == c for n, c in cd.items())
+        else:
+            amps = {n for n in avail if (n.startswith("t") or n in ("X", "Y")) and n not in names} if ign else set()
+            ok = Counter([n for n in avail if n not in amps]) == cd
+        if ok:
+            keep += t
+        else:
+            drop += t
+    oc = _cmp(keep, kept.sympy, T, res, spin)
+    res["status"], res["witness"] = oc.status, oc.witness
+    res["out"] = str(kept)[:300]
+    res["nontrivial"] = keep is not S.Zero and drop is not S.Zero
+    return res
+
+
 def main():
     global TIMEOUT
     ap = argparse.ArgumentParser()
     ap.add_argument("--tier", default="quick")
     ap.add_argument("--replay")
     a = ap.parse_args()
-    fns = {"symmetry": run_symmetry, "exploit": run_exploit, "sort": run_sort, "termmap": run_termmap}
+    fns = {"symmetry": run_symmetry, "exploit": run_exploit, "sort": run_sort, "termmap": run_termmap,
+           "filter": run_filter}
     if a.replay:
         import json
         p = json.load(open(a.replay))
@@ -454,8 +518,8 @@ def main():
     quick = a.tier == "quick"
     TIMEOUT = 20000 if quick else 120000
     run = Run("C10", a.tier, "translation_validation")
-    n = {"symmetry": 160, "exploit": 80, "sort": 100, "termmap": 60} if quick else \
-        {"symmetry": 3000, "exploit": 1200, "sort": 1500, "termmap": 600}
+    n = {"symmetry": 160, "exploit": 80, "sort": 100, "termmap": 60, "filter": 80} if quick else \
+        {"symmetry": 3000, "exploit": 1200, "sort": 1500, "termmap": 600, "filter": 1000}
     base = seed() * 1000003 + 1000
     for part, fn in fns.items():
         results = pmap(fn, [base + k for k in range(n[part])], limit=(30 if quick else 300))
